@@ -17,7 +17,7 @@ void h_shards_valid(void)
   uint64_t in_na, in_ns; __CPROVER_assume(in_na <= A && in_ns <= S);
   pl.assigned_shards.p = assigned; pl.assigned_shards.n = in_na; pl.assigned_shards.cap = A;
   mf.shards.p = shards; mf.shards.n = in_ns; mf.shards.cap = S;
-  _Bool got = Node__handle_announce__slice_shards_valid(&pl, &mf);
+  _Bool got = Node__handle_announce__slice_shards_valid(&mf, &pl);
   _Bool want = 1;
   for (uint64_t i = 0; i < A; ++i) if (i < in_na) { _Bool carried = 0; for (uint64_t j = 0; j < S; ++j) if (j < in_ns && shards[j].index == assigned[i]) carried = 1; if (!carried) want = 0; }
   __CPROVER_assert(got == want, "an announcement is admitted exactly when every share index it assigns is carried by the announced manifest");
